@@ -585,6 +585,13 @@ class ModelInterp(Interp):
                     return sorted(args[0])
                 except TypeError:
                     raise Raises("TypeError", u(c)[:60])
+            if f.id == "next" and args:
+                seq = list(args[0])
+                if seq:
+                    return seq[0]
+                if len(args) > 1:
+                    return args[1]
+                raise Raises("StopIteration", u(c)[:60])
             if f.id == "any":
                 return any(self.truth(x) for x in args[0])
             if f.id == "all":
